@@ -9,7 +9,7 @@ for f in sorted(glob.glob('/verif/seeded/*/meta.json')):
     patch = open(os.path.join(os.path.dirname(f), 'patch.diff')).read()
     files = sorted(set(re.findall(r'^\+\+\+ b/(\S+)', patch, re.M)))
     rc = d.get('recheck', {})
-    first = 'yes' if d.get('detected_by_checks_at_confirmation') else 'no'
+    first = 'yes' if d.get('detected_by_checks_at_confirmation') and d.get('first_try_detected', True) else 'no'
     rows.append('| %s | %s | %s | %s | %s |' % (d['seed'], ', '.join(files), first, ('yes: ' + ' '.join(rc.get('rules', []))) if rc.get('detected') else ('NO' if rc else '?'), ' '.join(x for x in rc.get('by_property', []) if x != d['breaks_property'][0])))
 table = '| seed | files changed | caught when first tried | caught now (rules) | also flagged by |\n|---|---|---|---|---|\n' + '\n'.join(rows)
 p = '/verif/DESIGN.md'
